@@ -89,6 +89,41 @@ theorem find?_revEnum_spec {α : Type} (l : List α) (q : α → Bool) :
   · simp only [j] at h hix ⊢
     simp only [h, dite_true, hix]
 
+/-- the search loop over `l` itself (elements paired with their index) -/
+theorem find?_fwd_spec {α : Type} (l : List α) (q : α → Bool) :
+    let j := l.findIdx q
+    (j < l.length → ∃ x, l[j]? = some x ∧ q x = true ∧
+        (l.zipIdx).find? (fun it => q it.1) = some (x, j)) ∧
+    (¬ j < l.length → (l.zipIdx).find? (fun it => q it.1) = none) := by
+  intro j
+  rw [find?_zipIdx]
+  refine ⟨fun h => ⟨l[j], by simp [h], List.findIdx_getElem (w := h), by simp [j, h]⟩, fun h => by simp [j, h]⟩
+
+/-- the search loop over `reversed(l)` -/
+theorem find?_rev_spec {α : Type} (l : List α) (q : α → Bool) :
+    let j := l.reverse.findIdx q
+    (j < l.length → ∃ x, l[l.length - j - 1]? = some x ∧ q x = true ∧
+        (l.zipIdx.reverse).find? (fun it => q it.1) = some (x, l.length - j - 1)) ∧
+    (¬ j < l.length → (l.zipIdx.reverse).find? (fun it => q it.1) = none) := by
+  intro j
+  have hm : List.findIdx (fun y : α × Nat => q y.1) l.zipIdx.reverse = l.reverse.findIdx q := by
+    have := List.findIdx_map l.zipIdx.reverse Prod.fst q
+    rw [List.map_reverse, List.zipIdx_map_fst] at this
+    rw [this]; rfl
+  rw [List.find?_eq_getElem?_findIdx, hm]
+  refine ⟨fun h => ?_, fun h => by simp [j] at h ⊢; omega⟩
+  have hi : l.length - j - 1 < l.length := by omega
+  have hix : l.length - 1 - j = l.length - j - 1 := by omega
+  have h' : l.reverse.findIdx q < l.reverse.length := by simpa using h
+  have hq := List.findIdx_getElem (w := h')
+  rw [List.getElem_reverse] at hq
+  refine ⟨l[l.length - j - 1], by simp [hi], ?_, ?_⟩
+  · simp only [j] at hix ⊢
+    simpa only [hix] using hq
+  · simp only [j] at h hix ⊢
+    rw [List.getElem?_eq_getElem (by simpa using h)]
+    simp [List.getElem_reverse, hix]
+
 /-- `l[i] = v` with a Python integer that is a valid natural index -/
 theorem setItemI_nat {α : Type} (l : List α) (i : Int) (v : α) (h0 : 0 ≤ i) (h : i.toNat < l.length) :
     setItemI l i v = some (l.set i.toNat v) := by
